@@ -31,7 +31,7 @@ def run(tier, rep):
         if 'crashed' in r:
             continue
         c = r['config']
-        if c['e1'] < 0 or c['e2'] < 0:
+        if c['e1'] < 0 or c['e2'] < 0 or c['e2'] > 11:
             if not (r['toall_port'] >= 1 - 1e-9):
                 rep.violation('dbd:%s:l%d:m%d:toallevents-onesided' % (c['name'], c['level'], c['mode']), 'toallevents=%g < 1 for the one-sided window [%g,%g]' % (r['toall_port'], c['e1'], c['e2']))
             continue
